@@ -117,3 +117,29 @@ pub(super) fn generate_confirm_token() -> anyhow::Result<String> {
     getrandom::fill(&mut bytes).map_err(|e| anyhow::anyhow!("generate confirm_token: {e}"))?;
     Ok(hex::encode(bytes))
 }
+
+#[cfg(agentpack_verif)]
+impl ConfirmTokenBinding {
+    pub(super) fn verif_new(
+        repo: Option<String>,
+        profile: Option<String>,
+        target: Option<String>,
+        machine: Option<String>,
+    ) -> Self {
+        Self {
+            repo,
+            profile,
+            target,
+            machine,
+        }
+    }
+}
+
+#[cfg(agentpack_verif)]
+impl ConfirmTokenStore {
+    pub(super) fn verif_tokens(&self) -> Vec<String> {
+        let mut out: Vec<String> = self.tokens.keys().cloned().collect();
+        out.sort();
+        out
+    }
+}
